@@ -1558,7 +1558,7 @@ def covariance(obs, visualize=False, correlation=False, smooth=None, **kwargs):
 
     corr = np.diag(1 / np.sqrt(np.diag(cov))) @ cov @ np.diag(1 / np.sqrt(np.diag(cov)))
 
-    if isinstance(smooth, int):
+    if isinstance(smooth, (int, np.integer)):
         corr = _smooth_eigenvalues(corr, smooth)
 
     if visualize:
